@@ -1153,13 +1153,24 @@ theorem fmApply_shape (g g' : G) (tg : Target) (cb : V) (repl : Nat) (e : Rej)
     (h : fmApply g tg cb repl = (g', .error e)) : e.shape = true := by
   unfold fmApply at h
   split at h
-  · simp only [Prod.mk.injEq, rReflect, rej, Except.error.injEq] at h; obtain ⟨_, rfl⟩ := h; rfl
   · split at h
     · rename_i g1 e1 h1
       simp only [Prod.mk.injEq, Except.error.injEq] at h; obtain ⟨_, rfl⟩ := h
       have := replaceFunc_shape _ _ _ _ _ _ _ h1
       exact shape_asPanicString _ this.1 (Or.inl this.2)
     · simp [pure, Except.pure] at h
+  · simp only [Prod.mk.injEq, rStr, rej, Except.error.injEq] at h; obtain ⟨_, rfl⟩ := h; rfl
+
+/-- patch.go:139 (goom 03ba08b): on the by-name route of a method-value target **a replacement that is not a function is
+    rejected** — a nil, an int, a `*int`, a slice — with the state literally untouched -/
+theorem fm_nonfunction_rejected (g : G) (tg : Target) (cb : V) (repl : Nat) (h : ∀ s, cb ≠ .fn s) :
+    fmApply g tg cb repl = (g, .error ⟨.replKind, [.str]⟩) := by
+  cases cb with
+  | fn s => exact absurd rfl (h s)
+  | nil | val _ | expr => rfl
+
+example : fmApply G.init { id := 0, sig := default } (.val ⟨.ptr, 8, 34, false, 0⟩) 1 = (G.init, .error ⟨.replKind, [.str]⟩) :=
+  fm_nonfunction_rejected _ _ _ _ (by intro s hs; cases hs)
 
 theorem fmCall_shape (g : G) (tg : Target) (msig : Sig) (repl : Nat) (act : Action) (e : Rej)
     (h : (fmCall g tg msig repl act).2.1 = .error e) : e.shape = true := by
